@@ -328,6 +328,7 @@ pub fn run(ctx: &mut Ctx) -> Result<(), Violation> {
     let wc = ctx.tier.cases(6_000, 200_000);
     crate::wide::stage_retain(ctx, "wide-functions", wc)?;
     crate::wide::stage_collisions(ctx, "operands-with-equal-hash-sub-diagrams", "retain")?;
+    crate::wide::fuzz_kind(ctx, "retain", replay)?;
 
     let spellings = ["true", "True", "t", "T", "1", "false", "False", "f", "F", "0", "any", "Any", "a", "A", "*"];
     let mut jobs: Vec<(Fun, String)> = Vec::new();
